@@ -1,5 +1,6 @@
 import WcModel.Properties.C05
 import WcModel.Proofs.GlobSplitShape
+import WcModel.Proofs.SeqScanAgree
 /-
   C05, the splitter side: every output of `_GlobSplit.split` (`globSplit`, tied to glob.py by the
   K5 split stream) has the shape the walker theorem `C05_partial` assumes — for ALL pattern
@@ -329,6 +330,40 @@ theorem D30_fixed_witness :
     splitSummary {} "@(a/[b" =
       some [⟨"@(a".toList, false, false, false, true, false⟩, ⟨"[b".toList, true, false, false, false, false⟩] := by
   decide +kernel
+
+/-- D34 (repaired by a `fix:` commit): `_GlobSplit._sequence` — the splitter's skip over a bracket
+    expression — took only `!` for the negation, took a first `]` (or a `]` after `^`) for the END of
+    the bracket, and did not know POSIX classes, so it thought `[[:digit:]@(]` ended at `:]`, read
+    the `@(` that follows as an extended group and swallowed the `/` inside:
+    `glob('[[:digit:]@(]x/y)', EXTGLOB)` returned nothing although the file `1x/y)` exists and
+    `globmatch` accepts it.  The splitter now reads a bracket the way the parser does
+    (`seq_scanners_agree`): the patterns split at their `/`; this witness fails again if the defect
+    returns.  (A `/` INSIDE a bracket still ends the attempt: `[[:digit:]/]` = `[[:digit:]`, `]`.) -/
+theorem D34_fixed_witness :
+    splitSummary { extmatch := true } "[[:digit:]@(]x/y)" =
+      some [⟨"[[:digit:]@(]x".toList, true, false, false, true, false⟩, ⟨"y)".toList, true, false, false, false, false⟩] ∧
+    splitSummary { extmatch := true } "[]@(]x/y)" =
+      some [⟨"[]@(]x".toList, true, false, false, true, false⟩, ⟨"y)".toList, true, false, false, false, false⟩] ∧
+    splitSummary { extmatch := true } "[^]@(]x/y)" =
+      some [⟨"[^]@(]x".toList, true, false, false, true, false⟩, ⟨"y)".toList, true, false, false, false, false⟩] ∧
+    splitSummary { extmatch := true } "[![:alpha:]@(]/y)" =
+      some [⟨"[![:alpha:]@(]".toList, true, false, false, true, false⟩, ⟨"y)".toList, true, false, false, false, false⟩] ∧
+    splitSummary {} "[]a]/b" =
+      some [⟨"[]a]".toList, true, false, false, true, false⟩, ⟨"b".toList, false, false, false, false, false⟩] ∧
+    splitSummary { extmatch := true } "[[:digit:]/]" =
+      some [⟨"[[:digit:]".toList, true, false, false, true, false⟩, ⟨"]".toList, true, false, false, false, false⟩] := by
+  decide +kernel
+
+/-- **D34, the property the repair is about** (proof: `Proofs/SeqScanAgree.lean`): on every text,
+    from every position and under every flag word with PATHNAME and Unix rules (what
+    `Glob.__init__` hands the splitter on this host), the splitter's bracket skip
+    `_GlobSplit._sequence` ends exactly where the parser's `WcParse._sequence` ends — or gives up
+    exactly when the parser gives up, and the `[` is an ordinary character for both.  Escapes, POSIX
+    classes, `!`/`^` and a leading `]`, `-`, `[` included. -/
+theorem seq_scanners_agree (isBytes : Bool) (f : Flags) (hp : f.pathname = true) (hu : isUnixStyle f = true)
+    (ps : PS) (it : It) :
+    (sequence (Cfg.ofFlags isBytes f) ps it).map (·.2.2) = GSplit.sequence it :=
+  SeqScan.gsplit_sequence_agree_flags isBytes f hp hu ps it
 
 /-- non-vacuity of the shape theorems: a pattern with a drive, a globstar, an extended group and
     a wildcard splits successfully -/
